@@ -158,6 +158,7 @@ func runC16(c *Ctx) {
 
 	// ---- R16.1: Parse re-initialises every field before reading it ----
 	for _, d := range gmParserDirs {
+		checkPopNFresh(c, p, "R16.4", d)
 		sp := p.SSAPkg(gmRoot + "/" + d)
 		parse := p.Func(gmRoot+"/"+d, "*Parser.Parse")
 		reset := p.Func(gmRoot+"/"+d, "*Parser.Reset")
@@ -274,9 +275,9 @@ func runC16(c *Ctx) {
 		}
 	}
 	c.Assumptions = append(c.Assumptions, "Lexer.src and Lexer.Context are set by the constructor/user and never written by Scan (checked: Scan's store set)",
-		"attribute slices handed out by popN alias the stack's backing array; Parse itself never reads them after the next push — retention by user actions is outside the generated code (R16.3, not decided)")
+		"user actions may keep their argument slice: popN hands out fresh memory (R16.4)")
 	c.Trusted = append(c.Trusted, "go/ssa of the instantiated lexer and parser templates", "checker/sx.go for the prologue event order")
-	c.Explanation = "C16 decided as a state-reinitialisation property of the generated code: (lexer) the set W of Lexer fields that Scan can store to is computed from the SSA of the instantiated template; Reset must assign every field of W the constant NewLexer gives it. (parser) the prologue of Parse is interpreted: its events must be Reset, Scan, store nextToken, in that order and before the loop; Reset must be stack.reset + push(0,nil); stack.reset must truncate every field of the stack; every other field of Parser must be Context (never written by generated code) or never read. Hence every run of Parse / every scan after Reset starts from the state of a fresh object. Not decided: aliasing of popN's result by user actions."
+	c.Explanation = "C16 decided as a state-reinitialisation property of the generated code: (lexer) the set W of Lexer fields that Scan can store to is computed from the SSA of the instantiated template; Reset must assign every field of W the constant NewLexer gives it. (parser) the prologue of Parse is interpreted: its events must be Reset, Scan, store nextToken, in that order and before the loop; Reset must be stack.reset + push(0,nil); stack.reset must truncate every field of the stack; every other field of Parser must be Context (never written by generated code) or never read. Hence every run of Parse / every scan after Reset starts from the state of a fresh object. R16.4: the slice popN hands to an action is freshly allocated, so what an action keeps cannot be overwritten by later pushes into the surviving backing array."
 }
 
 func isZeroConst(v ssa.Value) bool {
@@ -352,4 +353,70 @@ func storesCoverAllPaths(fn *ssa.Function, field string) bool {
 		return true
 	}
 	return walk(fn.Blocks[0])
+}
+
+// R16.4: the attributes handed to an action do not share memory with the stack. The stack's backing array
+// survives Reset and is overwritten by later pushes, so an action that keeps its argument slice would see
+// values that depend on how far earlier parses grew the stack.
+func checkPopNFresh(c *Ctx, p *Prog, rule, dir string) {
+	fn := p.Func(gmRoot+"/"+dir, "*stack.popN")
+	if fn == nil {
+		c.Undecided(rule, dir+" stack.popN", "function not found")
+		return
+	}
+	var origin func(v ssa.Value, seen map[ssa.Value]bool) string
+	origin = func(v ssa.Value, seen map[ssa.Value]bool) string {
+		if seen[v] {
+			return "fresh"
+		}
+		seen[v] = true
+		switch x := v.(type) {
+		case *ssa.MakeSlice:
+			return "fresh"
+		case *ssa.Alloc:
+			if x.Heap {
+				return "fresh"
+			}
+			return "local"
+		case *ssa.Slice:
+			return origin(x.X, seen)
+		case *ssa.Phi:
+			for _, e := range x.Edges {
+				if o := origin(e, seen); o != "fresh" {
+					return o
+				}
+			}
+			return "fresh"
+		case *ssa.Call:
+			if b, ok := x.Call.Value.(*ssa.Builtin); ok && b.Name() == "append" {
+				return origin(x.Call.Args[0], seen)
+			}
+			return "result of " + x.Call.Value.Name()
+		case *ssa.UnOp:
+			if fa, ok := x.X.(*ssa.FieldAddr); ok {
+				return "the stack's own slice (field " + fieldVar(fa).Name() + ")"
+			}
+			return "a load"
+		case *ssa.Const:
+			return "fresh" // nil
+		}
+		return fmt.Sprintf("%T", v)
+	}
+	n := 0
+	for _, b := range fn.Blocks {
+		for _, in := range b.Instrs {
+			ret, ok := in.(*ssa.Return)
+			if !ok {
+				continue
+			}
+			for _, r := range ret.Results {
+				n++
+				o := origin(r, map[ssa.Value]bool{})
+				c.Ob(rule, dir+" stack.popN result", o == "fresh", "the attribute slice handed to the action is "+o+"; required: freshly allocated (the stack's backing array survives Reset and is overwritten by later pushes, so a kept slice would make the result depend on earlier parses)", p.Pos(in.Pos()))
+			}
+		}
+	}
+	if n == 0 {
+		c.Undecided(rule, dir+" stack.popN", "no return found")
+	}
 }
